@@ -24,6 +24,7 @@ import (
 	"math/big"
 	"sort"
 	"strings"
+	"time"
 	"testing"
 
 	"pgregory.net/rapid"
@@ -533,6 +534,20 @@ func (m *c13Monitor) insufficientFunds(br *BlockResult, o TxOutcome) *pbt.Violat
 }
 
 func (m *c13Monitor) Finish(c *Chain, w *World) *pbt.Violation {
+	// "execution happens exactly once per dispute": a round that was tallied (a result is recorded) and whose dispute
+	// period is over in the last block must have been executed by that block's BeginBlocker (never zero times)
+	if !m.halted && len(m.ids) > 0 && !m.foreign {
+		ctx := c.Ctx()
+		id := m.ids[len(m.ids)-1]
+		d, err1 := c.App.DisputeKeeper.Disputes.Get(ctx, id)
+		vt, err2 := c.App.DisputeKeeper.Votes.Get(ctx, id)
+		if err1 == nil && err2 == nil && vt.VoteResult != disputetypes.VoteResult_NO_TALLY && !vt.Executed && ctx.BlockTime().After(d.DisputeEndTime) {
+			m.counters["execution_checks_failed"]++
+			return pbt.Violf("C13/tallied-dispute-never-executed/"+strings.ToLower(vt.VoteResult.String()), "dispute %d (round %d, status %s) has the recorded result %s and its dispute period ended %s, the last block is at %s, but the vote is not executed",
+				id, d.DisputeRound, d.DisputeStatus, vt.VoteResult, d.DisputeEndTime.UTC().Format(time.RFC3339Nano), ctx.BlockTime().UTC().Format(time.RFC3339Nano))
+		}
+		m.counters["execution_checks"]++
+	}
 	if m.halted || len(m.ids) == 0 || !m.settled || m.foreign {
 		return nil
 	}
